@@ -22,6 +22,11 @@ MOVES = [(F(0), F(0)), (F(3), F(-7)), (F(1, 3), F(2, 7)), (F(1000), F(-1000)), (
 
 def cases(ctx):
     rng = ctx.rng
+    for i in range(ctx.n(8, 200)):
+        env = shallow_env(rng)
+        if OC.env_general_position(env) and OC.crossing_count(env) >= 2:
+            yield {"env": env, "op": "|&-^"[i % 4], "k": rng.choice([F(1, 1000), F(1, 2000), F(1, 400), F(1)]), "rot": rng.choice(ROTS),
+                   "mv": rng.choice(MOVES[:3]), "num": "frac", "shallow": True}
     for i in range(ctx.n(30, 700)):
         env = OC.gen_env(rng, 2, R=rng.choice([8, 12]), den=rng.choice([1, 1, 2]))
         if env is None:
@@ -36,6 +41,16 @@ def cases(ctx):
         # (inexact-contact class, known finding F17 under C01): the float stream uses | & - ~ only
         ops = list("|&-^") + ["~", "in", "pt"] if num == "frac" else list("|&-") + ["~", "in", "pt"]
         yield {"env": env, "op": rng.choice(ops), "k": k, "rot": rng.choice(ROTS), "mv": rng.choice(MOVES), "num": num}
+
+
+def shallow_env(rng):
+    """a rectangle and a quadrilateral whose long edges cross the rectangle's sides at a small angle (slope 1/20..1/60):
+    after scaling, |edge_a| |edge_b| sin(angle) becomes tiny although every edge stays well above the tolerances"""
+    m = rng.choice([20, 30, 40, 60])
+    a = [(F(0), F(0)), (F(10), F(0)), (F(10), F(6)), (F(0), F(6))]
+    x0 = F(rng.randint(1, 3))
+    b = [(x0, F(-1, 10)), (x0 + 6, F(-1, 10) + F(6, m) + F(1, 10)), (x0 + 6, F(-3)), (x0, F(-3))]
+    return [("S", G.verts_to_jordan(G.ccw(a))), ("S", G.verts_to_jordan(G.ccw(b)))]
 
 
 def _min_feature(env):
